@@ -361,8 +361,8 @@ def dbgStep (_ : Unit) (ts : List String) : Unit × String :=
     | _ => ((), "bad-op")
   | _ => ((), "bad-op")
 
-/-- tie 1 (model = code on the fragment): for a parsed query inside S1 the REAL statement must equal `tr q` (and carry no parameters).
-Then the theorem's prediction is run: on every generated graph that satisfies the hypothesis `GraphOK` (checked by `graphOKb`) the two
+/-- tie 1 (model = code on the fragment): for a parsed query inside S1 or S2a the REAL statement must equal `tr2 q` (and carry no parameters).
+Then the theorem's prediction is run: on every generated graph that satisfies the hypothesis (`GraphOK` by `graphOKb` for S1, `GraphOK2` by `graphOK2b` for S2a) the two
 evaluators must agree (or the SQL model stops with `unmodelled`); graphs outside the hypothesis are evaluated too and only counted. -/
 def tieStep (_ : Unit) (ts : List String) : Unit × String :=
   match ts with
@@ -394,8 +394,10 @@ def tieStep (_ : Unit) (ts : List String) : Unit × String :=
               | some gseed, some nrandom, some exN, some exE =>
                 let graphs := graphsFor gseed nrandom exN exE
                 let ordered := !q.ret.orderBy.isEmpty
-                let inHyp := graphs.filter (C01.graphOKb km)
-                let outHyp := graphs.filter (fun g => !C01.graphOKb km g)
+                -- the hypothesis of the stage's theorem: `GraphOK` for S1, `GraphOK2` for S2a
+                let hypB := fun (g : Graph) => if stg == "S1" then C01.graphOKb km g else C01.graphOK2b km g
+                let inHyp := graphs.filter hypB
+                let outHyp := graphs.filter (fun g => !hypB g)
                 let outsIn := inHyp.map (compareOn km [] q s ordered [])
                 let outsOut := outHyp.map (compareOn km [] q s ordered [])
                 let isAgree := fun (o : Outcome) => match o with | .agree => true | _ => false
